@@ -20,6 +20,7 @@ def make_keymap(name):
     return {
         'raw': lambda: keymap(),
         'rawtyped': lambda: keymap(typed=True),
+        'rawnf': lambda: keymap(flat=False),
         'rawsent': lambda: keymap(sentinel='|'),
         'pyhash': lambda: hashmap(),
         'str': lambda: stringmap(flat=False),
